@@ -6,7 +6,7 @@ numbering are both first-appearance. Not decided: numeric marginalisation of ACP
 from __future__ import annotations
 import ast
 import pathlib
-from ..terms import mkcmp, path, walk, show
+from ..terms import mkcmp, path, walk, show, atoms
 from ..model import AnalysisError
 from ..pat import has, find, find_all
 
@@ -206,7 +206,72 @@ def rule_positions(ctx):
               "ALT order and GT numbering are no longer both first-appearance", f1.where())
 
 
+def _sample_field_values(t):
+    """sub-terms that read one FORMAT field of one sample: record.samples[s].get(FIELD) / record.samples[s][FIELD]"""
+    out = []
+    for x in walk(t):
+        if x[0] == 'call' and x[1] == '.get' and len(x[2]) >= 2:
+            recv = x[2][0]
+            if recv[0] == 'idx' and recv[1][0] == 'attr' and recv[1][2] == 'samples' and any(y[0] == 'name' and '.formatfields.' in y[1] for y in walk(x[2][1])):
+                if len(x[2]) == 2:          # with a default the caller chose what a missing field looks like
+                    out.append(x)
+        if x[0] == 'idx' and x[1][0] == 'idx' and x[1][1][0] == 'attr' and x[1][1][2] == 'samples' and any(y[0] == 'name' and '.formatfields.' in y[1] for y in walk(x[2])):
+            out.append(x)
+    return out
+
+
+def _numeric_uses(t, conds, found):
+    """(value, conditions in force) for every numpy.array(V) of a per-sample field value V, following phi arms"""
+    if not isinstance(t, tuple) or not t:
+        return
+    if t[0] == 'phi':
+        _numeric_uses(t[1], conds, found)
+        _numeric_uses(t[2], conds + [(t[1], True)], found)
+        _numeric_uses(t[3], conds + [(t[1], False)], found)
+        return
+    if t[0] == 'call' and t[1] == 'numpy.array' and t[2]:
+        for v in _sample_field_values(t[2][0]):
+            if t[2][0] == v:
+                found.append((v, list(conds)))
+    for x in t:
+        if isinstance(x, tuple):
+            _numeric_uses(x, conds, found)
+
+
+def rule_missing_values(ctx):
+    """a FORMAT value written as '.' comes back from pysam as (None,): it must not reach arithmetic, and must not be printed as
+    the text 'None' (defect H: records with the AF0 / NOA filter carry '.' for AFP, ACP and SQ)"""
+    f = ctx.func(AT + 'get_sample_snv_ACP')
+    r = ctx.recon(f.qname)
+    found = []
+    # the statement that converts the value is the one that must be guarded (a later use sees the converted array through a phi
+    # whose other arm left the iteration with `continue`, which a conjunction of path conditions cannot express)
+    for ev in r.events:
+        if ev.kind == 'assign' and isinstance(ev.node, (ast.Assign, ast.AugAssign)) and any(
+                isinstance(n, ast.Call) and ast.unparse(n.func) in ('np.array', 'numpy.array') for n in ast.walk(ev.node.value)):
+            _numeric_uses(ev.data[1], [(c, pol) for c, pol in ev.conds if not (isinstance(c, tuple) and c and c[0] == 'inloop')], found)
+    seen = {}
+    for v, conds in found:
+        at = atoms(conds)
+        none_in = (('cmp', 'In', ('const', None), v), False)
+        guarded = none_in in at
+        key = show(v)[:120]
+        seen[key] = seen.get(key, True) and guarded
+    ctx.need(len(seen) >= 2, f"{f.qname}: per-sample ACP and AFP values converted with numpy.array expected, found {len(seen)}")
+    for k, (key, ok) in enumerate(sorted(seen.items()), 1):
+        ctx.check(ok, 'R20.4/missing-sample-value', f.construct(f"numeric field #{k}"), f"{key} reaches arithmetic only where `None in value` is excluded",
+                  f"{key} is converted to an array and used in arithmetic on a path where it may be (None,) - the value pysam returns for '.'", f.where())
+    g = ctx.func(AT + 'get_sample_snv_PQ')
+    rg = ctx.recon(g.qname)
+    texts = [c for c, _, _ in rg.calls if c[1] == '.astype' and len(c[2]) == 2 and c[2][1] == ('const', 'U') and any(y[0] == 'name' and y[1].endswith('formatfields.SQ.id') for y in walk(c[2][0]))]
+    ctx.need(len(texts) == 1, f"{g.qname}: one conversion of SQ values to text expected")
+    fixed = any(ev.kind == 'store' and ev.data[2] == ('const', '.') and ev.data[1][0] == 'cmp' and ev.data[1][1] == 'Eq' and ('const', 'None') in (ev.data[1][2], ev.data[1][3])
+                for ev in rg.events)
+    ctx.check(fixed, 'R20.4/missing-sample-value', g.construct('SQ as text'), "a missing SQ is written as '.'", "a missing SQ (None) is converted to text and printed as 'None'", g.where())
+
+
 def run(ctx):
+    rule_missing_values(ctx)
     rule_nullable(ctx)
     rule_empty_axis(ctx)
     rule_positions(ctx)
